@@ -199,6 +199,8 @@ def monotone_violations(spec, obs, prop="C17"):
         cs = [a.cost for a in g.agents]
         bests.append(min(cs) if mm == "min" else max(cs))
     out = []
+    if any(b != b for b in bests):
+        return [], False, bests          # NaN costs: "best" is not defined; nothing to judge
     for k, (b1, b2) in enumerate(zip(bests, bests[1:])):
         if (b2 > b1) if mm == "min" else (b2 < b1):
             out.append((f"{prop}|{spec['optimizer']}|best-lost",
